@@ -40,7 +40,7 @@ def generate(rng, tier):
                 shape = [n] + trailing
                 L = gen.lanes_of(shape)
                 xs = gen.axis_q(rng, n, rng.choice(["uniform", "geometric", "random", "dyadic", "mesh64", "mesh64", "evenish"]))
-                flat = gen.vals_q(rng, n * L, rng.choice(["int", "dyadic", "rational"]))
+                flat = gen.degenerate(rng, n, L, gen.vals_q(rng, n * L, rng.choice(["int", "dyadic", "rational"])))
                 if l0 == "per":
                     bc, lanes = "per", "per"
                     flat[(n - 1) * L:] = flat[:L]
